@@ -53,7 +53,7 @@ m = {
               "kind_free_text": "symbolic interpreter for go/ssa (explicit copy-on-write heap, forking DFS, hash-consed SMT-LIB terms, one z3 -in per worker, lazy symbolic JSON documents, native replay of every counterexample)"}],
  "checks": [],
  "not_applicable": [],
- "notes": "Exit codes of checks: 0 held on everything explored; 1 + VIOLATION line for a natively reproduced violation not listed in known_findings.jsonl; 3 = inconclusive (solver unknown, unwinding bound hit, unsupported construct, unreproduced candidate) - never reported as success.",
+ "notes": "Exit codes of checks: 0 held on everything explored; 1 + VIOLATION line for a natively reproduced violation not listed in known_findings.jsonl; 3 = inconclusive (solver unknown, unwinding bound hit, unsupported construct, unreproduced candidate) - never reported as success. Thorough tiers explore under a wall-clock budget (VERIF_BUDGET_S, default 240 s of exploration, 0 = none; sample sizes capped by VERIF_THOROUGH_SCALE, default 3): jobs not started within it are listed in the evidence (time_budget.jobs_not_run) and are outside that run's claim. /verif/evidence_thorough/ keeps the evidence of the last complete thorough pass on the unchanged tree.",
 }
 for p in props:
     pid = p['id']
